@@ -111,35 +111,71 @@ end
 
 def keyOf (t : TyName) : Str := t.full
 
-def k_errorString : Str := (LeafKind.errorString []).ty.full
-def k_deadline : Str := LeafKind.deadline.ty.full
-def k_errno : Str := (LeafKind.errno 0 [] false false false false false).ty.full
-def k_leafError : Str := (LeafKind.leafError []).ty.full
-def k_unimplemented : Str := (LeafKind.unimplemented [] [] []).ty.full
-def k_barrier : Str := tnBarrier.full
-def k_barrierPrev : Str := tnBarrierPrev.full
-def k_join : Str := MultiKind.join.ty.full
-def k_withPrefix : Str := (WrapKind.withPrefix []).ty.full
-def k_withNewMessage : Str := (WrapKind.withNewMessage []).ty.full
-def k_withHint : Str := (WrapKind.withHint []).ty.full
-def k_withDetail : Str := (WrapKind.withDetail []).ty.full
-def k_withIssueLink : Str := (WrapKind.withIssueLink [] []).ty.full
-def k_withTelemetry : Str := (WrapKind.withTelemetry []).ty.full
-def k_withDomain : Str := (WrapKind.withDomain []).ty.full
-def k_withContext : Str := (WrapKind.withContext [] none).ty.full
-def k_withAssertionFailure : Str := WrapKind.withAssertionFailure.ty.full
-def k_withSafeDetails : Str := (WrapKind.withSafeDetails []).ty.full
-def k_withMark : Str := (WrapKind.withMark [] []).ty.full
-def k_withSecondary : Str := tnSecondary.full
-def k_withHTTPCode : Str := (WrapKind.withHTTPCode 0).ty.full
-def k_withGrpcCode : Str := (WrapKind.withGrpcCode 0).ty.full
-def k_pkgWithMessage : Str := (WrapKind.pkgWithMessage []).ty.full
-def k_pathError : Str := osPathErrorKey
-def k_linkError : Str := (WrapKind.linkError [] [] []).ty.full
-def k_syscallError : Str := (WrapKind.syscallError []).ty.full
+abbrev k_errorString : Str := (LeafKind.errorString []).ty.full
+abbrev k_deadline : Str := LeafKind.deadline.ty.full
+abbrev k_errno : Str := (LeafKind.errno 0 [] false false false false false).ty.full
+abbrev k_leafError : Str := (LeafKind.leafError []).ty.full
+abbrev k_unimplemented : Str := (LeafKind.unimplemented [] [] []).ty.full
+abbrev k_barrier : Str := tnBarrier.full
+abbrev k_barrierPrev : Str := tnBarrierPrev.full
+abbrev k_join : Str := MultiKind.join.ty.full
+abbrev k_withPrefix : Str := (WrapKind.withPrefix []).ty.full
+abbrev k_withNewMessage : Str := (WrapKind.withNewMessage []).ty.full
+abbrev k_withHint : Str := (WrapKind.withHint []).ty.full
+abbrev k_withDetail : Str := (WrapKind.withDetail []).ty.full
+abbrev k_withIssueLink : Str := (WrapKind.withIssueLink [] []).ty.full
+abbrev k_withTelemetry : Str := (WrapKind.withTelemetry []).ty.full
+abbrev k_withDomain : Str := (WrapKind.withDomain []).ty.full
+abbrev k_withContext : Str := (WrapKind.withContext [] none).ty.full
+abbrev k_withAssertionFailure : Str := WrapKind.withAssertionFailure.ty.full
+abbrev k_withSafeDetails : Str := (WrapKind.withSafeDetails []).ty.full
+abbrev k_withMark : Str := (WrapKind.withMark [] []).ty.full
+abbrev k_withSecondary : Str := tnSecondary.full
+abbrev k_withHTTPCode : Str := (WrapKind.withHTTPCode 0).ty.full
+abbrev k_withGrpcCode : Str := (WrapKind.withGrpcCode 0).ty.full
+abbrev k_pkgWithMessage : Str := (WrapKind.pkgWithMessage []).ty.full
+abbrev k_pathError : Str := osPathErrorKey
+abbrev k_linkError : Str := (WrapKind.linkError [] [] []).ty.full
+abbrev k_syscallError : Str := (WrapKind.syscallError []).ty.full
 
-/-- What a registered leaf decoder returns: `none` = panic, `some none` = nil (fall back to opaque). -/
-abbrev DecRes (α : Type) := Option (Option α)
+/-- The decoder families registered by the library's init() functions. -/
+inductive KeyClass
+  | errorString | deadline | errno | leafError | unimplemented | barrier | barrierPrev | join
+  | pkgWithMessage | pathError | linkError | syscallError | withPrefix | withNewMessage | withHint
+  | withDetail | withMark | withSecondary | withContext | withHTTPCode | withGrpcCode | withDomain
+  | withIssueLink | withTelemetry | withAssertionFailure | withSafeDetails
+  | other
+  deriving DecidableEq, Repr, Inhabited
+
+/-- Which registered decoder (if any) a family key selects. -/
+def classify (k : Str) : KeyClass :=
+  if k = k_errorString then .errorString
+  else if k = k_deadline then .deadline
+  else if k = k_errno then .errno
+  else if k = k_leafError then .leafError
+  else if k = k_unimplemented then .unimplemented
+  else if k = k_barrier then .barrier
+  else if k = k_barrierPrev then .barrierPrev
+  else if k = k_join then .join
+  else if k = k_pkgWithMessage then .pkgWithMessage
+  else if k = k_pathError then .pathError
+  else if k = k_linkError then .linkError
+  else if k = k_syscallError then .syscallError
+  else if k = k_withPrefix then .withPrefix
+  else if k = k_withNewMessage then .withNewMessage
+  else if k = k_withHint then .withHint
+  else if k = k_withDetail then .withDetail
+  else if k = k_withMark then .withMark
+  else if k = k_withSecondary then .withSecondary
+  else if k = k_withContext then .withContext
+  else if k = k_withHTTPCode then .withHTTPCode
+  else if k = k_withGrpcCode then .withGrpcCode
+  else if k = k_withDomain then .withDomain
+  else if k = k_withIssueLink then .withIssueLink
+  else if k = k_withTelemetry then .withTelemetry
+  else if k = k_withAssertionFailure then .withAssertionFailure
+  else if k = k_withSafeDetails then .withSafeDetails
+  else .other
 
 def redactSprintPlain (msg : Str) : RStr := encloseUnsafe msg   -- redact.Sprint(msg) of an unsafe string
 
@@ -161,97 +197,99 @@ def buildLeaf (path : List Nat) (msg : Str) (d : Det) (hid : List Enc)
     match hid, d.pay with
     | [], .testErr => some (.leaf path .testErr)
     | _, _ => opq
-  if !P.knows key then payloadErr
-  else if key = k_errorString then some (.leaf path (.errorString msg))
-  else if key = k_deadline then some (.leaf path .deadline)
-  else if key = k_errno then
+  if !P.knows key then payloadErr else
+  match classify key with
+  | .errorString => some (.leaf path (.errorString msg))
+  | .deadline => some (.leaf path .deadline)
+  | .errno =>
     (match hid, d.pay with
     | [], .errno n arch perm exist notExist timeout temp =>
       if arch ≠ P.arch then some (.leaf path (.opaqueErrno msg n arch perm exist notExist timeout temp))
       else some (.leaf path (.errno n msg perm exist notExist timeout temp))
     | _, _ => opq)
-  else if key = k_leafError then
+  | .leafError =>
     (match hid, d.pay with
     | [], .str m => some (.leaf path (.leafError m))
     | _, _ => opq)
-  else if key = k_unimplemented then
+  | .unimplemented =>
     some (.leaf path (.unimplemented msg (d.rep.getD 0 []) (d.rep.getD 1 [])))
-  else if key = k_barrier then
+  | .barrier =>
     (match hid with
     | _ :: _ => hd.map (fun m => .barrier path msg m)
     | [] => none)            -- unchecked type assertion on the payload: panic
-  else if key = k_barrierPrev then
+  | .barrierPrev =>
     (match hid with
     | _ :: _ => hd.map (fun m => .barrier path (redactSprintPlain msg) m)
     | [] => none)
-  else if key = k_join then
+  | .join =>
     (match cs with
     | none => none
     | some [] => opq          -- Join() of nothing is nil
     | some l => some (.multi path .join l))
-  else payloadErr
+  | _ => payloadErr
 
 def buildWrap (path : List Nat) (msg : Str) (d : Det) (mt : Nat) (hid : List Enc)
     (hd : Option Err) (c : Err) : Option Err :=
   let key := d.mark.fam
   let opq : Err := .wrap path (.opaqueWrapper msg d mt hid) c
-  if !P.knows key then some opq
-  else if key = k_pkgWithMessage then some (.wrap path (.pkgWithMessage msg) c)
-  else if key = k_pathError then
+  if !P.knows key then some opq else
+  match classify key with
+  | .pkgWithMessage => some (.wrap path (.pkgWithMessage msg) c)
+  | .pathError =>
     (match hid, d.pay with
     | [], .strs (a :: b :: _) => some (.wrap path (.pathError a b) c)
     | _, _ => some opq)
-  else if key = k_linkError then
+  | .linkError =>
     (match hid, d.pay with
     | [], .strs (a :: b :: x :: _) => some (.wrap path (.linkError a b x) c)
     | _, _ => some opq)
-  else if key = k_syscallError then some (.wrap path (.syscallError msg) c)
-  else if key = k_withPrefix then
+  | .syscallError => some (.wrap path (.syscallError msg) c)
+  | .withPrefix =>
     (match hid, d.pay with
     | [], .str m => some (.wrap path (.withPrefix m) c)
     | _, _ => some opq)
-  else if key = k_withNewMessage then
+  | .withNewMessage =>
     (match hid, d.pay with
     | [], .str m => some (.wrap path (.withNewMessage m) c)
     | _, _ => some opq)
-  else if key = k_withHint then
+  | .withHint =>
     (match hid, d.pay with
     | [], .str m => some (.wrap path (.withHint m) c)
     | _, _ => some opq)
-  else if key = k_withDetail then
+  | .withDetail =>
     (match hid, d.pay with
     | [], .str m => some (.wrap path (.withDetail m) c)
     | _, _ => some opq)
-  else if key = k_withMark then
+  | .withMark =>
     (match hid, d.pay with
     | [], .mark m t => some (.wrap path (.withMark m t) c)
     | _, _ => some opq)
-  else if key = k_withSecondary then
+  | .withSecondary =>
     (match hid with
     | _ :: _ => hd.map (fun s => .second path c s)
     | [] => some opq)
-  else if key = k_withContext then
+  | .withContext =>
     (match hid, d.pay with
     | [], .tags l => if l = [] ∧ d.rep = [] then some opq else some (.wrap path (.withContext l (some d.rep)) c)
     | _, _ => some opq)
-  else if key = k_withHTTPCode then
+  | .withHTTPCode =>
     (match hid, d.pay with
     | [], .http n => some (.wrap path (.withHTTPCode n) c)
     | _, _ => none)          -- unchecked type assertion: panic
-  else if key = k_withGrpcCode then
+  | .withGrpcCode =>
     (match hid, d.pay with
     | [], .grpc n => some (.wrap path (.withGrpcCode n) c)
     | _, _ => none)
-  else if key = k_withDomain then
+  | .withDomain =>
     (match d.rep with
     | dom :: _ => some (.wrap path (.withDomain dom) c)
     | [] => some opq)
-  else if key = k_withIssueLink then
+  | .withIssueLink =>
     some (.wrap path (.withIssueLink (d.rep.getD 0 []) (d.rep.getD 1 [])) c)
-  else if key = k_withTelemetry then some (.wrap path (.withTelemetry d.rep) c)
-  else if key = k_withAssertionFailure then some (.wrap path .withAssertionFailure c)
-  else if key = k_withSafeDetails then some (.wrap path (.withSafeDetails d.rep) c)
-  else some opq
+  | .withTelemetry => some (.wrap path (.withTelemetry d.rep) c)
+  | .withAssertionFailure => some (.wrap path .withAssertionFailure c)
+  | .withSafeDetails => some (.wrap path (.withSafeDetails d.rep) c)
+  | _ => some opq
 
 mutual
 /-- `DecodeError`; `none` = panic.  Decoded objects get identity `path`. -/
@@ -278,5 +316,10 @@ end
 /-- One network hop: encode at `P`, decode at `Q` (fresh identities tagged `tag`). -/
 def hop (P Q : Proc) (vf : Err → Str) (tag : Nat) (e : Err) : Option Err :=
   decode Q [tag] (encode P vf e)
+
+/-- `k` successive hops between processes that know every library type; hop `i` tags identities with `tag + i`. -/
+def hopsFull (vf : Err → Str) (tag : Nat) : Nat → Err → Option Err
+  | 0, e => some e
+  | k + 1, e => (hopsFull vf tag k e).bind (hop Full Full vf (tag + k))
 
 end ErrModel
